@@ -191,7 +191,7 @@ func specGenuineER6(s *icmpDriver, p *packets.FrameParser, t uint8) bool {
 //@ requires[pre.past]     forall(k, 0, 256, s.sentProbes[k] <= now())
 //@ ensures[C06.once]      ret0 == nil ==> !old(specSent(s, ttl)) && !old(has(s.sentProbes, ttl)) && specSent(s, ttl) && specInRange(s, ttl)
 // the probe is registered (matchable by the receiver) before it is on the wire: a reply can never overtake its own bookkeeping
-//@ before Sink.WriteTo assert[C02+C05.send.registered] specSent(s, ttl)
+//@ before Sink.WriteTo assert[C02+C05+C06.send.registered] specSent(s, ttl)
 //@ ensures[C06.others]    forall(k, 0, 256, k != int(ttl) ==> s.sentProbes[k] == old(s.sentProbes[k]) && has(s.sentProbes, k) == old(has(s.sentProbes, k)))
 //@ ensures[C05.stamp]     ret0 == nil ==> wrN == old(wrN)+1 && s.sentProbes[ttl] <= wrClock && s.sentProbes[ttl] >= old(now())
 //@ ensures[C05.past]      forall(k, 0, 256, s.sentProbes[k] <= now())
